@@ -153,9 +153,22 @@ func VerifH_C02_Paths() {
 		}
 	}
 	text := sb.String()
+	// a comparison with a multi-valued leaf before or after the path: state of one
+	// sub-expression must not leak into the evaluation of the other
+	prelude := vrt.Choice("around", 3)
+	pathOnly := text
+	switch prelude {
+	case 1:
+		text = "ll = 'zz' or " + text
+	case 2:
+		text = text + " or ll = 'zz'"
+	}
 
 	// ---- expected requests
 	var exp []string
+	if prelude == 1 {
+		exp = append(exp, "Navigate REL/ll", "GetValue REL/ll")
+	}
 	var elems []string
 	rootBased := root == 1
 	if root == 3 {
@@ -206,6 +219,10 @@ func VerifH_C02_Paths() {
 	}
 	final := elemsText(rootBased, elems)
 	exp = append(exp, "Navigate "+final, "GetValue "+final)
+	if prelude == 2 {
+		exp = append(exp, "Navigate REL/ll", "GetValue REL/ll")
+	}
+	_ = pathOnly
 
 	// known finding: an absolute operand path inside a predicate keeps the steps of the
 	// path being filtered (a[k=/r/x] asks for /a/r/x)
@@ -226,6 +243,7 @@ func VerifH_C02_Paths() {
 		t.vals = map[string]xpath.Datum{}
 		t.deflt = xpath.NewLiteralDatum(xval)
 	}
+	t.vals["ll"] = xpath.NewDatumSliceDatum([]xpath.Datum{xpath.NewLiteralDatum("p"), xpath.NewLiteralDatum("q")})
 	res := xpath.NewCtxFromCurrent(nil, m, t.root()).Run()
 	if e := res.GetError(); e != nil {
 		vrt.Observe("run-error", text, e.Error())
@@ -244,7 +262,12 @@ func VerifH_C02_Paths() {
 	if lastName == "x" {
 		wantVal = xval
 	}
-	vrt.Assert(vrt.StrEq(s, wantVal), "c02.value")
+	if prelude == 0 {
+		vrt.Assert(vrt.StrEq(s, wantVal), "c02.value")
+	} else {
+		b, _ := res.GetBoolResult()
+		vrt.Assert(b, "c02.value-with-comparison-around") // the path's value is a non-empty string
+	}
 
 	// the same machine evaluated again (fresh context, fresh tree) must ask for exactly
 	// the same nodes: nothing of a run may stay behind in the compiled machine
@@ -254,7 +277,9 @@ func VerifH_C02_Paths() {
 	if res2.GetError() == nil {
 		vrt.Assert(vrt.StrEq(strings.Join(t2.log, "\n"), want), "c02.second-run.requests")
 		s2, _ := res2.GetLiteralResult()
-		vrt.Assert(vrt.StrEq(s2, wantVal), "c02.second-run.value")
+		if prelude == 0 {
+			vrt.Assert(vrt.StrEq(s2, wantVal), "c02.second-run.value")
+		}
 	}
 }
 
